@@ -76,6 +76,8 @@ class Index:
     cardinality = 1
     enabled = True
     prefix = b""
+    # what follows the indexed value in a key: \x00 created_at(4) \x00 id(32)
+    key_suffix = 38
 
     def __init__(self):
         self.hits = self.misses = 0
@@ -170,6 +172,13 @@ class Index:
                 matchlen = len(match)
                 while match:
                     # breakpoint()
+                    if key[:matchlen] == match and len(key) != matchlen + self.key_suffix:
+                        # a key of a longer value that contains this match followed by
+                        # the \x00 separator (a NUL inside a tag value): not ours, step over it
+                        if not prev():
+                            break
+                        key = bytes(get_key())
+                        continue
                     ts = key[-37:-33]
                     # print(key, match, ts, since, until)
 
@@ -220,6 +229,7 @@ class Index:
 class IdIndex(Index):
     prefix = b"\x00"
     cardinality = 1000
+    key_suffix = 0
 
     def to_key(self, value) -> bytes:
         return self.prefix + bytes_from_hex(value)
